@@ -12,21 +12,21 @@ CLAIMED = {
 }
 CLAIMED.update({
  'C01': dict(section='8/C01', technique='Coq proof (soundness/completeness/window/digest-binding of approveMessages over all hash and verifier functions) + differential correspondence of the real gateway in the Rust VM against the model with keccak-256 executed in Coq',
-   text='Theorems c01_sound, c01_complete, c01_out_of_window, c01_digest_binding, c01_inv_reachable over a Gallina model of gateway auth/lib (raw-byte decoding of batch and proof included), for every hash and verifier function and every reachable state; the real contract is run on generated histories with real ed25519 proofs and compared step by step (status, return data, events, storage diff) with the model.',
+   text='Theorems c01_sound, c01_complete, c01_out_of_window, c01_digest_binding, c01_inv_reachable (and, for histories with upgrade transactions, c01_inv_reachable_with_upgrades, c01_settings_forever_with_upgrades, c01_upgrade_approves_nothing; Model/GWUpgrade.v) over a Gallina model of gateway auth/lib (raw-byte decoding of batch and proof included), for every hash and verifier function and every reachable state; the real contract is run on generated histories with real ed25519 proofs and compared step by step (status, return data, events, storage diff) with the model.',
    note='Trusted: Coq kernel; hand-written model tied by the correspondence; signature oracle = table of honestly produced signatures; keccak/ed25519 outside the proofs (collision freedom only as explicit hypotheses).'),
  'C02': dict(section='8/C02', technique='Coq proof (monotone lifecycle, first-wins, validate spec, at-most-once by induction over histories, binding) + differential correspondence in the Rust VM',
-   text='Theorems c02_step_monotone, c02_rank_monotone, c02_first_wins, c02_validate_spec, c02_at_most_once, c02_binding for all operation histories of the gateway model; the real contract is compared step by step on generated histories with duplicate / re-sent ids and right/wrong validators.',
+   text='Theorems c02_step_monotone, c02_rank_monotone, c02_first_wins, c02_validate_spec, c02_at_most_once, c02_binding for all operation histories of the gateway model, and c02_*_with_upgrades (one-way life cycle and at-most-once validation along histories that also contain upgrade transactions); the real contract is compared step by step on generated histories with duplicate / re-sent ids and right/wrong validators.',
    note='Trusted: as C01.'),
  'C03': dict(section='8/C03', technique='Coq proof (rotation effect, exact acceptance predicate of signer sets, epoch/hash bijection invariant over all histories, operator vs non-operator, operatorship) + differential correspondence in the Rust VM',
-   text='Theorems c03_rotate_sound, c03_validate_signers_spec (+ five rejections), c03_bijection_reachable, c03_registered_forever, c03_operator_complete, c03_out_of_window_*, c03_operatorship; correspondence on rotation histories by operator / others with sets of every age and time steps around the delay.',
-   note='Trusted: as C01; block time monotone; upgrade endpoint not modelled.'),
+   text='Theorems c03_rotate_sound, c03_validate_signers_spec (+ five rejections), c03_bijection_reachable, c03_registered_forever, c03_operator_complete, c03_out_of_window_*, c03_operatorship; the upgrade path (Model/GWUpgrade.v): c03_upgrade_spec, c03_upgrade_rejects, c03_bijection_reachable_with_upgrades, c03_registered_forever_with_upgrades, c03_epoch_monotone_with_upgrades, c03_operatorship_with_upgrades; correspondence on rotation histories (every eighth with upgrade transactions by the owner) by operator / others with sets of every age and time steps around the delay.',
+   note='Trusted: as C01; block time monotone; an upgrade transaction belongs to the owner by protocol rule (the harness sends it from the owner only).'),
 })
 CLAIMED.update({
  'C09': dict(section='8/C09', technique='Coq proof (acceptance rule, two-sided net-flow bound preserved by every transaction and every history with an unchanged limit) + differential correspondence of the real token manager in the Rust VM',
    text='Theorems c09_add_flow_spec, c09_accept_in/out, c09_reject_iff, c09_step_bounded (all sixteen operations, all callers), c09_history_bounded, c09_fresh_epoch, c09_unlimited, c09_limit_gate; EPOCH_TIME regenerated and pinned to 21600; the real contract is compared step by step (status, returns, events, storage, balances) on histories with amounts around L and epoch boundaries.',
    note='Trusted: Coq kernel; hand-written model of token-manager tied by the correspondence; gen_tables.py; harness.'),
  'C10': dict(section='8/C10', technique='Coq proof (service-only, exact custody/supply effect of give/take, mint/burn gates, role transfer/proposal algebra, role frame) + differential correspondence in the Rust VM',
-   text='Theorems c10_give/take_service_only, c10_give_lock, c10_take_lock, c10_transfer_exact, c10_give_mint, c10_take_mint, c10_mint/burn_requires, c10_transfer_role, c10_accept_role (usable once), c10_*_auth, c10_roles_frame, c10_no_redeploy; correspondence over all five manager types and every caller class. Upgrade path (Model/TMUpgrade.v): c10_upgrade_spec, c10_upgrade_moves_nothing, c10_service_forever, c10_give/take_after_history_service_only, c10_token_forever_with_upgrades, c10_upgrade_nonvacuous; upgrades by the owner with arbitrary constructor arguments are part of the traces. In the ITS world (Proofs/ItsTmGeneric.v): c10_identity_forever_in_world, c10_give/take_service_only_in_world (all 25 operation kinds), c10_in_world_nonvacuous.',
+   text='Theorems c10_give/take_service_only, c10_give_lock, c10_take_lock, c10_transfer_exact, c10_give_mint, c10_take_mint, c10_mint/burn_requires, c10_transfer_role, c10_accept_role (usable once), c10_*_auth, c10_roles_frame, c10_no_redeploy; proposals over whole histories (Proofs/TMProposals.v): c10_proposals_changed_only_by, c10_accepts_never_outnumber_proposals; correspondence over all five manager types and every caller class. Upgrade path (Model/TMUpgrade.v): c10_upgrade_spec, c10_upgrade_moves_nothing, c10_service_forever, c10_give/take_after_history_service_only, c10_token_forever_with_upgrades, c10_upgrade_nonvacuous; upgrades by the owner with arbitrary constructor arguments are part of the traces. In the ITS world (Proofs/ItsTmGeneric.v): c10_identity_forever_in_world, c10_give/take_service_only_in_world (all 25 operation kinds), c10_in_world_nonvacuous.',
    note='Trusted: as C09; per-step custody statements (the history-level sum is their direct fold); ESDT role/frozen-account rules of the protocol are outside the model. History level (Proofs/TMCustody.v): c10_custody_step and c10_custody_history (holdings of a lock/unlock manager = initial + taken - given over every operation sequence).'),
 })
 CLAIMED.update({
@@ -36,7 +36,7 @@ CLAIMED.update({
 })
 CLAIMED.update({
  'C11': dict(section='8/C11', technique='Coq proof (dispatch precondition, command effects, callback effects, and for ALL schedules: a cancelled proposal stays undispatchable until rescheduled) + differential correspondence of gateway+governance in the Rust VM with harness-scheduled promises + trace monitors',
-   text='Theorems c11_dispatch_requires, c11_commands (eta >= now + delay, no reschedule), c11_callback, c11_cancel_kills, c11_cancelled_stays_cancelled (induction over arbitrary operation lists = all interleavings of dispatch, target call, callback and other transactions), c11_dead_no_dispatch; counting over whole histories (Proofs/GovCount.v): c11_eta_potential and c11_pending_potential (all nine operation kinds) give c11_one_success_per_scheduling (successful dispatches of a proposal <= accepted schedulings of it, for every history and schedule) and c11_accepts_bounded; c11_unrepaired_refuted exhibits the history on which the source before the fix: commit violated the property. The real contracts are compared step by step with the model and a monitor re-checks the property on the implementation trace. c11_command_traces_to_batch: the authentication of a scheduling command, end to end (Proofs/GovGwOrigin.v).',
+   text='Theorems c11_dispatch_requires, c11_commands (eta >= now + delay, no reschedule), c11_callback, c11_cancel_kills, c11_cancelled_stays_cancelled (induction over arbitrary operation lists = all interleavings of dispatch, target call, callback and other transactions), c11_dead_no_dispatch; exclusion (Proofs/GovExcl.v): c11_never_scheduled_and_in_flight, c11_exclusion_reachable, c11_callback_restores_only_onto_empty, c11_eta_changes_only_by; counting over whole histories (Proofs/GovCount.v): c11_eta_potential and c11_pending_potential (all nine operation kinds) give c11_one_success_per_scheduling (successful dispatches of a proposal <= accepted schedulings of it, for every history and schedule) and c11_accepts_bounded; c11_unrepaired_refuted exhibits the history on which the source before the fix: commit violated the property. The real contracts are compared step by step with the model and a monitor re-checks the property on the implementation trace. c11_command_traces_to_batch: the authentication of a scheduling command, end to end (Proofs/GovGwOrigin.v).',
    note='Trusted: Coq kernel; hand-written model of governance+gateway tied by the correspondence; external target abstracted to an outcome; gas not modelled. Genuine defect F-C11-1 repaired by a fix: commit (known_findings.json).'),
  'C12': dict(section='8/C12', technique='Coq proof (authenticated-command precondition with gateway consumption, no replay, table frame for every other operation, operator dispatch/approval algebra for all schedules, operator and funds gates) + differential correspondence + trace monitors',
    text='Theorems c12_execute_requires, c12_no_replay, c12_tables_frame, c12_operator_dispatch, c12_operator_callback, c12_cancelled_approval_stays_cancelled, c12_deadop_no_dispatch, c12_operator_change, c12_withdraw_self_only. Counting (Proofs/GovCountOp.v): c12_approval_potential, c12_one_success_per_approval (successful operator dispatches <= accepted approvals, for every history). End to end (Proofs/GovGwOrigin.v): c12_gateway_projection, c12_command_traces_to_batch (an accepted command traces back to an approveMessages transaction of the same history naming exactly this command), c12_end_to_end_nonvacuous.',
